@@ -12,6 +12,23 @@ def black_changes_fragment_value(ename, case, fail, obs):
     fragment as a module docstring (strips / re-escapes it) and so changes its value.  Matches only when
     (a) the value is a top-level str formatted by black, (b) the generated token evaluates to the original
     value, and (c) black's own output for that token evaluates to something else."""
+    if ename == "values":
+        # the whole argument is one str literal (op ==, single value), formatted by black
+        if case.get("op") != "eq" or len(case.get("vals", [])) != 1:
+            return False
+        try:
+            want = ast.literal_eval(case["vals"][0])
+        except Exception:  # noqa: BLE001
+            return False
+        if not isinstance(want, str):
+            return False
+        try:
+            import black
+            lit = repr(want)
+            out = black.format_str(lit, mode=black.FileMode())
+            return ast.literal_eval(out.strip()) != want and ast.literal_eval((obs.get("arg") or "None")) == ast.literal_eval(out.strip())
+        except Exception:  # noqa: BLE001
+            return False
     if ename != "strlit" or case.get("nest") != "top" or case.get("fmt") != "black" or case.get("kind") != "str":
         return False
     tok = obs.get("token")
@@ -68,3 +85,11 @@ def prefix_collision_not_persisted(ename, case, fail, obs):
     pre = m.group(1)
     names = re.findall(r"'([0-9a-f]+)(?:-new)?\.txt'", m.group(2))
     return sum(1 for n in names if n.startswith(pre)) >= 2
+
+
+def truncated_by_failed_write(ename, case, fail, obs):
+    """KF-C15-1: `open(file, "bw")` truncates the test file before `write`; a failure of the write itself
+    leaves the file empty.  Matches only the injected `write` fault and only an EMPTY file."""
+    if ename != "faults" or case.get("kind") != "write" or fail[1] != "old_or_new":
+        return False
+    return fail[2].rstrip().endswith(": ''")
